@@ -110,10 +110,14 @@ func c18Setup(prm c18Params) func(c *fw.Ctx, name string) explore.Setup {
 							cl.n, cl.err = nc.Read(b[:])
 						}
 						cl.t1 = w.Now
-					case "W":
+					case "W", "W0":
 						cl := &c18Call{op: op, t0: w.Now, dl: wdl, dlSetAt: wdlSet, closedPrev: st.p.Closed}
 						st.calls = append(st.calls, cl)
-						cl.n, cl.err = nc.Write([]byte{1, 2, 3})
+						if op == "W0" {
+							cl.n, cl.err = nc.Write(nil) // an empty write is a call like any other
+						} else {
+							cl.n, cl.err = nc.Write([]byte{1, 2, 3})
+						}
 						cl.t1 = w.Now
 					}
 				}
@@ -182,7 +186,7 @@ func c18Oracle(c *fw.Ctx, w *vs.World, name string, prm c18Params, st *c18State)
 	closedByDeadline := false
 	for _, cl := range st.calls {
 		dir := "read"
-		if cl.op == "W" {
+		if cl.op == "W" || cl.op == "W0" {
 			dir = "write"
 		}
 		if cl.closedPrev || closedByDeadline {
@@ -358,13 +362,13 @@ func c18Scenarios(tier string) []scenario {
 		cfg = explore.Config{P: 3, T: 2, E: 0, Horizon: 60e9}
 		depth = 4
 	}
-	ops := []string{"RDp", "RD1", "RD0", "WDp", "WD1", "WD0", "R", "Rn", "Rp", "W", "S1", "S2"}
+	ops := []string{"RDp", "RD1", "RD0", "WDp", "WD1", "WD0", "R", "Rn", "Rp", "W", "W0", "S1", "S2"}
 	var seqs [][]string
 	var gen func(cur []string)
 	gen = func(cur []string) {
 		if len(cur) > 0 {
 			last := cur[len(cur)-1]
-			if last == "R" || last == "Rn" || last == "Rp" || last == "W" { // a sequence is interesting when it ends with a call
+			if last == "R" || last == "Rn" || last == "Rp" || last == "W" || last == "W0" { // a sequence is interesting when it ends with a call
 				seqs = append(seqs, append([]string(nil), cur...))
 			}
 		}
